@@ -1,4 +1,5 @@
 import Verif.Proofs.Conv
+import Verif.Proofs.ConvRounding
 /-!
 C16 — Numeric conversions preserve value or fail.
 
@@ -62,6 +63,30 @@ example : convert .ufix128 .fix64 (-1) none = .error .underflow := by decide
 theorem fix_target_error_kind_witness :
     convert .fix64 .int256 (-(2 ^ 100)) none = .error .overflow
     ∧ specConvert .int256 .fix64 (-(2 ^ 100)) .towardZero = .error .underflow := by decide
+
+/-- Fixed-point targets with a rounding rule (`Fix64(x, rounding: r)`, `UFix64(x, rounding: r)`), every
+    source type and value, every rule.  Full statement: as `fix_target` with the rule `r`.  Proved
+    outside the recorded finding's region: a non-zero source whose rounded value is 0 (there the code
+    deliberately raises `underflow`, see `rounds_to_zero_witness`). -/
+theorem fix_target_rounding_partial (src tgt : NumTy) (raw : Int) (r : Rounding) (h : src.inRange raw)
+    (ht : tgt = .fix64 ∨ tgt = .ufix64) (hz : raw ≠ 0 → scaled src tgt raw r ≠ 0) :
+    sameOutcome (convert tgt src raw (some r)) (specConvert src tgt raw r) :=
+  fix_target_rounding_all src tgt raw r h ht hz
+
+example : convert .fix64 .fix128 1000000005000000000000000 (some .nearestHalfEven) = .ok 100000000 := by decide
+example : convert .fix64 .fix128 1000000015000000000000000 (some .nearestHalfEven) = .ok 100000002 := by decide
+example : convert .fix64 .fix128 (-1000000005000000000000000) (some .nearestHalfAway) = .ok (-100000001) := by decide
+example : convert .ufix64 .ufix128 184467440737095516150000000000000001 (some .awayFromZero) = .error .overflow := by decide
+example : scaled .fix128 .fix64 1000000005000000000000000 .awayFromZero ≠ 0 := by decide
+
+/-- the recorded finding `narrowing-rounds-to-zero-underflow`, proved of the model: the code fails where
+    the property's reading ("rounded by the given rule") gives 0 -/
+theorem rounds_to_zero_witness :
+    convert .fix64 .fix128 1 (some .towardZero) = .error .underflow
+    ∧ specConvert .fix128 .fix64 1 .towardZero = .ok 0
+    ∧ convert .fix64 .fix128 1 none = .ok 0
+    ∧ convert .ufix64 .fix128 (-1) (some .nearestHalfEven) = .error .underflow
+    ∧ specConvert .fix128 .ufix64 (-1) .nearestHalfEven = .ok 0 := by decide
 
 /-- the spec never asks for anything but a value or a range error -/
 theorem spec_total (src tgt : NumTy) (raw : Int) (r : Rounding) :
